@@ -4,9 +4,11 @@ CONSTANTS
   MaxFragments = 1
   FnScopes = {"def"}
   MaxDepth = 1
+  FixedLines = TRUE
+  FixedFwd = TRUE
   PosMaxLines = 4
   NodesHavePos = TRUE
-  DevOn = {"fwd", "byte", "split"}
+  DevOn = {"byte"}
   YSites = {"oneline", "body", "continuation", "mlcall", "decorator", "fstring", "fstring_ml", "fstring_spec", "classbody", "nesteddef", "lambda_default", "comprehension", "strannot", "strannot_esc", "strannot_wide", "strannot_ml"}
   YPads = {"none", "u2", "u2x20", "u3", "u4", "tab", "ff", "vt", "fs", "nel", "ls", "ps"}
   YBefore = {0, 1, 3, 4}
